@@ -132,6 +132,9 @@ def sched_parts(pid: str, tier: str):
         mk("whole-run-N5-reconverging", Cfg(N=5, resources="t", sym_prio=True, fixed_shapes=(((), (), (), (2,), (2, 3)),), monitors=mons), base_req, 600, 8)
         # the AsyncDAG flavour: same scheduler, but the limit reaches it through another constructor
         mk("whole-run-N3-async-flavour", Cfg(N=3, resources="ta", flavours="a", routes="da", monitors=mons), base_req, 600)
+        mk("whole-run-N3-composed", Cfg(N=3, resources="ta", flavours="sa", routes="k", sym_seq=False, monitors=mons), base_req, 600)
+        # more async-thread nodes ready at once than the event loop's default executor has workers on a small machine
+        mk("whole-run-N6-independent-async", Cfg(N=6, resources="a", max_async=6, sym_seq=False, mc_fixed=6, fixed_shapes=(((), (), (), (), (), ()),), monitors=mons), ["w_returned", "w_parallel"], 600, 8)
         if not q:
             mk("whole-run-N4", Cfg(N=4, resources="tm", sym_prio=False, monitors=mons), base_req, 1500, 9)
     elif pid == "C09":
@@ -234,6 +237,9 @@ def graph_parts(pid: str, tier: str):
         parts.append(Part("table-N4-insertion-orders", P(run_c07, GCfg(N=4, relabel=False, debug=False, selection=False, reconf=False, rebuild=True)), {"N": 4, "insertion orders": 24, "how": "DAG(exec_nodes=...) with permuted node table; compose()"}, 600, 5, ["w_rebuilt", "w_diamond"], GRAPH_FUNCS))
         parts.append(Part("table-N3-debug", P(run_c07, GCfg(N=3, relabel=False, debug=True)), {"N": 3, "debug": "one debug leaf, RUN_DEBUG_NODES on/off"}, 600, 5, ["w_debug_in_subgraph"], GRAPH_FUNCS))
         parts.append(Part("order-mc1-N3", P(run_sched, Cfg(N=3, resources="t", sym_prio=True, sym_seq=False, routes="dc", mc_fixed=1, distinct_cp=True, monitors=("C06",))), {"N": 3, "max_concurrency": 1, "assumption": "compound priorities pairwise distinct"}, 600, 6, ["w_returned"], SCHED_FUNCS))
+        # the order seen through the other operations that schedule: a call after a warm-up call and a reconfiguration, DAG.setup()
+        parts.append(Part("order-mc1-N3-warmup-reconf", P(run_sched, Cfg(N=3, resources="t", sym_prio=True, sym_seq=False, routes="cpt", warmup=True, mc_fixed=1, monitors=("C06",))), {"N": 3, "max_concurrency": 1, "history": "optional earlier call under the build-time priorities, then config_from_dict"}, 600, 6, ["w_returned", "w_warmup"], SCHED_FUNCS))
+        parts.append(Part("order-mc1-N4-setup-run", P(run_sched, Cfg(N=4, resources="t", sym_prio=True, sym_seq=False, setup_call=True, selection=True, mc_fixed=1, fixed_shapes=SHAPES_N4, monitors=("C06",))), {"N": 4, "max_concurrency": 1, "operation": "DAG.setup(<selection>) over setup nodes"}, 600, 6, ["w_returned", "w_setup_call"], SCHED_FUNCS))
         if not q:
             parts.append(Part("table-N5", P(run_c07, GCfg(N=5, relabel=True, debug=False, selection=False)), {"N": 5, "labelings": 120}, 1500, 6, ["w_diamond"], GRAPH_FUNCS))
     elif pid == "C12":
@@ -295,12 +301,22 @@ def dataflow_parts(pid: str, tier: str):
 
         parts.append(Part("flags-in-composed-dags", P(run_compose, CCfg(N=3, setup=False, features="act")), {"N": 3, "what": "activation edges (plain and indexed) whose flag node is / is not an input of compose()"},
                           900, 7, ["w_flag_from_input"], COMPOSE_FUNCS))
+        from harness.sched import canonical, replay_real
+
+        # a flagged node inside a sub-graph execution whose flag node lies outside the selection (it then reads as None: not run)
+        cfg_sel = Cfg(N=3, resources="tm", selection=True, activation=True, sym_seq=False, monitors=("C03", "C01"))
+        parts.append(Part("flags-under-selection-N3", P(run_sched, cfg_sel), dataclass_bounds(cfg_sel), budget_s=600, split_depth=7, require=["w_returned", "w_deactivated"],
+                          functions=SCHED_FUNCS, real_replay=P(replay_real, cfg_sel), canonical=canonical))
         if not q:
             mk("flag-forms-3stmts", DCfg(stmts=("s", "s", "s"), focus="C10", budget=3, depth=2), ["w_flag", "w_flag_on_nested"], 1800)
             mk("flag-forms-b4", DCfg(focus="C10", budget=4), ["w_flag", "w_flag_on_nested"], 1800)
     elif pid == "C20":
         mk("nesting-depth2", DCfg(focus="C20", depth=2, budget=2), ["w_sub", "w_flag_on_nested"])
         mk("nesting-depth3", DCfg(focus="C20", depth=3, budget=1), ["w_sub"])
+        from harness.dataflow import NCfg, run_nested_derived
+
+        parts.append(Part("nesting-derived-dags", P(run_nested_derived, NCfg()), {"inner DAG": "composed from a 5-node base DAG (once / twice), reconfigured, deep-copied, called before", "use": "forwarded whole, indexed, flagged call",
+                          "inputs": "symbolic values"}, 300, 4, ["w_derived_composed", "w_derived_called-before"], FRONT_FUNCS))
         if not q:
             mk("nesting-depth2-b3", DCfg(focus="C20", depth=2, budget=3), ["w_sub"], 1800)
             mk("nesting-depth3-b2", DCfg(focus="C20", depth=3, budget=2), ["w_sub"], 1800)
